@@ -37,6 +37,7 @@ import DateutilVerif.Proofs.CacheGlobal
 import DateutilVerif.Model.CacheNested
 import DateutilVerif.Proofs.CacheNestedStep
 import DateutilVerif.Proofs.CacheNestedInit
+import DateutilVerif.Proofs.CacheNestedProgress
 
 namespace C11
 open Cache Queries
@@ -259,6 +260,28 @@ theorem nested_no_deadlock_init (memberSrcs : List (List Int)) (setDefs : List (
     (hun : ∃ r, Nested.IsRunner ns r ∧ Nested.finished ns r = false) :
     ∃ r, Nested.IsRunner ns r ∧ (Nested.step ns r).isSome = true :=
   nested_no_deadlock_partial (nested_init_fresh memberSrcs setDefs qs) h hun
+
+/-- **nested_progress_partial.** Every step of every runner in a reachable state decreases the measure
+    (the sum of the flat measures of all objects: each nested step is one statement of one object). -/
+theorem nested_progress_partial {ns0 ns ns' : Nested.NState} {r : Nested.Runner} {pc : PC} (h0 : Nested.Fresh ns0)
+    (h : Nested.NReach ns0 ns) (hs : Nested.step ns r = some (ns', pc)) : Nested.nmeasure ns' < Nested.nmeasure ns :=
+  Nested.nested_progress (Nested.nreach_inv h0 h) hs
+
+/-- executions of k runner steps -/
+inductive NExec (ns0 : Nested.NState) : Nat → Nested.NState → Prop
+  | init : NExec ns0 0 ns0
+  | step {k : Nat} {ns ns' : Nested.NState} {r : Nested.Runner} {pc : PC} :
+      NExec ns0 k ns → Nested.IsRunner ns r → Nested.step ns r = some (ns', pc) → NExec ns0 (k + 1) ns'
+
+/-- hence every execution is finite: its length is bounded by the measure of the state it starts from;
+    with `nested_no_deadlock_partial` it can always be continued until every runner has finished -/
+theorem nested_exec_bound {ns0 ns : Nested.NState} {k : Nat} (h0 : Nested.Fresh ns0) (h : NExec ns0 k ns) :
+    k + Nested.nmeasure ns ≤ Nested.nmeasure ns0 ∧ Nested.NReach ns0 ns := by
+  induction h with
+  | init => exact ⟨by omega, Nested.NReach.init⟩
+  | step _ hr hs ih =>
+    have := nested_progress_partial h0 ih.2 hs
+    exact ⟨by omega, Nested.NReach.step ih.2 hr hs⟩
 
 def nestedOwn := Nested.init [[0, 10, 20]] [([.cached 0], [])] [(1, .iterAll)] false
 def nestedShared := Nested.init [[0, 10, 20]] [([.cached 0], [])] [(1, .iterAll)] true
